@@ -91,3 +91,13 @@ Proof.
     + rewrite I. vm_compute. reflexivity.
   - now apply tok_no_esc.
 Qed.
+
+(* the leaf condition used by the Z-segment / varies theorems: the ST leaf encoder returns the text *)
+Definition st_fixed (v : str) (e : ec) (s : str) : Prop := leaf_enc v TOLERANT e (Some (unbs "ST")) s = Ok s.
+Definition st_fixedb (v : str) (e : ec) (s : str) : bool :=
+  match leaf_enc v TOLERANT e (Some (unbs "ST")) s with Ok r => streqb r s | Err _ => false end.
+Lemma st_fixedb_sound v e s : st_fixedb v e s = true -> st_fixed v e s.
+Proof.
+  unfold st_fixedb, st_fixed. destruct (leaf_enc _ _ _ _ s) as [r|]; [|discriminate].
+  intros H. now rewrite (streqb_eq _ _ H).
+Qed.
